@@ -11,7 +11,7 @@ def builds(tier):
 def run(chk):
     asan = vlib.build(SRC, 'asan')
     T = chk.thorough()
-    chk.absorb(vlib.run_sharded(asan, 12000 if T else 900, chk.seed, chk.tier, ['--mode', 'random'], tag='c01r', timeout=3600), 'random (D, options) pairs')
+    chk.absorb(vlib.run_sharded(asan, 100000 if T else 900, chk.seed, chk.tier, ['--mode', 'random'], tag='c01r', timeout=3600), 'random (D, options) pairs')
     chk.absorb(vlib.run_sharded(asan, 54 if T else 18, chk.seed, chk.tier, ['--mode', 'special'], tag='c01s', timeout=3600, stall_s=300), 'boundary packs (8000 entities / 32 MiB)')
     chk.assumptions = ['the projection (what each format/option carries) and the PBF framing parser in the harness are the trusted reference',
                        'domain restrictions listed under coverage.info']
